@@ -38,7 +38,7 @@ MIRROR = {1: 3, 2: 5, 3: 1, 4: 6, 5: 2, 6: 4, 7: 8, 8: 7}          # the triple 
 # other case, trailing / leading blanks, blank-only, empty
 TERM_FAMILY = [b"end", b"END", b"endwall", b"END2", b"en", b"End", b"end cap", b"ENDPLATE", b"e", b"endend", b"Wall", b"end ", b"END   ",
                b"endwall  ", b"   ", b" ", b"", b" lead", b"enD"]
-CHECKER = ("make -C coq Ftoc.vo FtocAbi.vo FtocAbiProofs.vo Gen_C20f.vo (coqc 8.16.1 kernel, vm_compute on the regenerated "
+CHECKER = ("make -C coq Ftoc.vo FtocAbi.vo FtocAbiProofs.vo FtocGoto.vo FtocGotoProofs.vo Gen_C20f.vo (coqc 8.16.1 kernel, vm_compute on the regenerated "
            "interface table) ; coqc Properties_C20f.v (Print Assumptions)")
 ORACLE = ("Fortran program (gfortran-12, use cgns) == C harness in wrapper mode == C harness in direct mode: status, outputs, "
           "guard bytes, file tree; ASan/UBSan; every interface body links")
@@ -550,18 +550,12 @@ def terminator_like(l):
 
 
 def known_divergence(op, F, w, d, susp=False):
-    """canonical keys of divergences that are genuine defects handed to the lead (notes/C20f.md, notes/C20-fixes/).
-    F: Fortran program, w: C harness wrapper mode, d: direct C call.
-    (The C_F_string defect of cgns_f.F90 was repaired by 40e726e: a regression is an ordinary VIOLATION.)"""
-    t = (op or "").split()
-    if not t or F is None or w is None or d is None:
-        return None
-    # cg_goto_fc1 / cg_gorel_fc1 end the path on a PREFIX test and do not know the empty string: the Fortran program and the
-    # replay of what cg_goto_f does (wrapper mode) agree with each other and differ from cg_goto / cg_gorel -- on the go-to
-    # line itself (status) or on the first observation after it (cg_where, marker).  susp: a go-to since the position was
-    # last set anew had a label on which the two terminator tests differ
-    if susp and F == w and F != d:
-        return GOTO_KEY
+    """canonical keys of divergences listed as `known:` in KNOWN_FINDINGS.txt.  F: Fortran program, w: C harness wrapper
+    mode, d: direct C call; susp: a go-to since the position was last set anew had a label on which the terminator test of
+    the OLD cg_goto_fc1 / cg_gorel_fc1 and that of cg_goto / cg_gorel differ (terminator_like).
+    None: both defects found by this layer are repaired in /repo -- C_F_string (40e726e, witness corpus/C20f/
+    cf_string_last_char.script) and the path-terminator test of cg_goto_fc1 / cg_gorel_fc1 (bbec569, key GOTO_KEY, witness
+    corpus/C20f/goto_fc1_terminator.script): a regression of either is an ordinary VIOLATION."""
     return None
 
 
@@ -602,7 +596,11 @@ def three_fails(exes, script, work, tag, backend, known_out=None):
         key = known_divergence(op, F, w, d, susp)
         if key:
             if known_out is not None:
-                known_out.setdefault(key, {"backend": backend, "script": script[:i + 1], "op": op, "fortran": F, "wrapper_mode": w, "reference": d})
+                # the most telling witness wins: the position differs although every status is 0 (observed by cg_where)
+                rank = 2 if op0 == "where" else 1 if " ier=0" in (d or "") else 0
+                if key not in known_out or known_out[key].get("rank", 0) < rank:
+                    known_out[key] = {"backend": backend, "script": script[:i + 1], "op": op, "fortran": F, "wrapper_mode": w, "reference": d,
+                                      "rank": rank}
             tainted = seen_known = True
             continue
         return True, {"line": i, "op": op, "c_op": cscript[i] if i < len(cscript) else None, "fortran": F, "wrapper_mode": w, "direct_mode": d}
@@ -629,7 +627,7 @@ def fail_class(detail):
 
 
 # ------------------------------------------------------------------------------------------------ the check
-MY_COQ = r"(FtocAbi|FtocAbiProofs|Properties_C20f|Gen_C20f)\.v"
+MY_COQ = r"(FtocAbi|FtocAbiProofs|FtocGoto|FtocGotoProofs|Properties_C20f|Gen_C20f)\.v"
 LINK_KEYS = {"cg_field_id_f_": "cgns_f.F90:cg_field_id_f:link-name-has-no-definition",
              "cg_1to1_id_f_": "cgns_f.F90:cg_1to1_id_f:link-name-has-no-definition",
              "cg_state_size_f_": "cgns_f.F90:cg_state_size_f:link-name-has-no-definition"}
@@ -708,6 +706,7 @@ def run_extra(ck, standalone=False):
     ex["translator"] = {k: info[k] for k in ("module_level_interfaces", "nested_interfaces", "paired_with_wrapper", "paired_with_c_api",
                                             "no_c_definition_found", "module_procedures", "rows", "parse_problems", "gen_sha1")}
     ex["translator"]["wrappers_without_interface"] = len(info["wrappers_without_interface"])
+    ex["translator"]["goto_terminator_tests"] = info.get("goto_terminator_tests")
     res = vlib.coq_check_properties("C20f")
     n = len(res["theorems"])
     ck.cov["obligations"] += n
@@ -729,6 +728,8 @@ def run_extra(ck, standalone=False):
     known_static = {"cg_bcdataset_info_f"}
     new_bad = [b for b in (bad or []) if b not in known_static]
     ex["static_findings"] = [{"row": b, "listed_in": "FtocAbi.abi_known"} for b in (bad or []) if b in known_static]
+    ex["goto_terminator_tests_not_of_the_repaired_shape"] = [k for k, v in (info.get("goto_terminator_tests") or {}).items()
+                                                             if (v["cmp"], v["blank_test"], v["empty_test"]) != ("CmpExact", False, True)]
 
     # ---- harnesses
     ref = vlib.build_harness("c20f_ref", ["c20f_ref.c"])
@@ -803,10 +804,10 @@ def run_extra(ck, standalone=False):
                     break
                 one(kind, gen(ck.rng, stats), backend, "s%d_%s" % (j, kind))
     for key, wit in sorted(known_seen.items()):
-        def f(sub, backend=wit["backend"], key=key):
+        def f(sub, backend=wit["backend"], key=key, wit=wit):
             ko = {}
             three_fails(exes, sub, ck.work, "shrinkk", backend, known_out=ko)
-            return key in ko
+            return key in ko and ko[key]["reference"] == wit["reference"] and ko[key]["fortran"] == wit["fortran"]
         small = vlib.ddmin(wit["script"], f, max_tests=80)
         ko = {}
         three_fails(exes, small, ck.work, "shrinkk", wit["backend"], known_out=ko)
